@@ -1,5 +1,5 @@
 """C02 / C06 / C10 contracts (run-time checked; proofs are added function by function)."""
-from pyvc.sorts import BOOL, INT, STR, ListSort, SetSort, OPAQUE
+from pyvc.sorts import BOOL, INT, STR, ListSort, SetSort, OPAQUE, DictSort, MapSort
 from specs.xsm import Node, Trans, Ev, Guard
 
 BI = "xstate_statemachine.base_interpreter:BaseInterpreter."
@@ -9,13 +9,45 @@ A = "self._active_state_nodes"
 def register(w):
     register_guards(w)
 
+    @w.contract(BI + "_collect_eligible_transitions", props=["C02", "C06"])
+    def _(c):
+        c.trusted = ("assumed here (bounded: the run-time twin clause of _select_transitions and bounded.c02/c06): every returned transition is "
+                     "declared on the state or one of its ancestors, deepest source first (the walk goes upward); guards are evaluated through "
+                     "_is_guard_satisfied only (A-user: no interpreter state is written)")
+        c.no_runtime = True
+        c.param("state", Node).param("event", Ev).param("guard_cache", DictSort(INT, BOOL)).returns(ListSort(Trans))
+        c.req("state != None and event != None")
+        c.ens("forall[int](lambda i: implies(0 <= i and i < len(result), result[i] != None and result[i].source != None and anc(state, result[i].source)))")
+        c.ens("forall[int, int](lambda i, j: implies(0 <= i and i < j and j < len(result), result[i].source.depth >= result[j].source.depth))")
+        c.may_raise("ImplementationMissingError")
+
     @w.contract(BI + "_select_transitions", props=["C02", "C16"])
     def _(c):
-        c.bounded_only = True
         c.param("event", Ev).returns(ListSort(Trans))
-        c.req(f"legal({A})")
-        c.ens("seq_eq(result, spec_selected(self, event))", label="result-is-the-nominated-set")
+        c.req(f"legal({A})", "event != None", f"forall[Node](lambda n: implies(n in {A}, n != None))")
+        c.ens("seq_eq(result, spec_selected(self, event))", label="rt:result-is-the-nominated-set")
         c.may_raise("ImplementationMissingError")
+        # ghost: W = the transitions nominated by some leaf (its first eligible candidate); NW = how many distinct ones
+        c.ghost("W", MapSort(Trans, BOOL), assume="forall[Trans](lambda t: not W[t])")
+        c.ghost("visited", MapSort(Node, BOOL))
+        c.after("eligible = self._collect_eligible_transitions(leaf, event, guard_cache)", "visited = store(visited, leaf, True)")
+        LEAF = "(n.type == 'atomic' or n.type == 'final' or len(n.states) == 0)"
+        c.ens(f"forall[Node](lambda n: implies(n in {A} and {LEAF}, final_visited[n]))", label="ghost:every-active-leaf-is-asked-for-its-nominee")
+        c.after("winner = ...",
+                # the nominee of a leaf is the FIRST eligible candidate: nearest handler, declaration order (C02)
+                "assert[first-eligible-wins] winner == eligible[0]",
+                "W = store(W, winner, True)")
+        c.ens("forall[int](lambda i: implies(0 <= i and i < len(result), result[i] != None and final_W[result[i]]))", label="ghost:only-nominated-transitions-are-selected")
+        c.ens("forall[Trans](lambda t: implies(final_W[t], t in result))", label="ghost:every-nominated-transition-is-selected")
+        c.ens("forall[int, int](lambda i, j: implies(0 <= i and i < j and j < len(result), result[i] != result[j]))", label="a-shared-transition-is-selected-once")
+        c.ens("forall[int, int](lambda i, j: implies(0 <= i and i < j and j < len(result), result[i].source.depth >= result[j].source.depth))", label="deepest-source-first")
+        c.loop(0, inv=[
+            "forall[int](lambda i: implies(0 <= i and i < len(selected), selected[i] != None and selected[i].source != None and W[selected[i]]))",
+            "forall[Trans](lambda t: implies(W[t], t in selected))",
+            "forall[int, int](lambda i, j: implies(0 <= i and i < j and j < len(selected), selected[i] != selected[j]))",
+            "forall[Trans](lambda t: (id(t) in seen) == (t in selected))",
+            "forall[int](lambda j: implies(0 <= j and j < _i, visited[_seq[j]]))",
+        ])
 
     @w.contract(BI + "can", props=["C02"])
     def _(c):
